@@ -205,6 +205,29 @@ def cmd_compile(gp, seed, n, outdir):
     add(D + "#[repr(u8)]\npub enum NAME<P: core::fmt::Debug> where P: Default { A { #[codec(encoded_as = \"<u32 as parity_scale_codec::HasCompact>::Type\")] x: u32, t: P }, B = 77 }\n"
         "pub fn use_it() -> Vec<u8> { parity_scale_codec::Encode::encode(&NAME::<u8>::B) }\n",
         "accepts", "enum 2 0 - - 2 a c 4 u32 p u32 0 - 77 0", None)
+    # discriminants that are constant EXPRESSIONS (not literals) colliding with / distinct from literal-known indices
+    K = "pub const ONE: isize = 1;\npub const TWO: isize = 2;\n"
+    add(K + D + "pub enum NAME { A = ONE, B }\n", "accepts", "enum 2 0 - 1 0 0 - - 0", "duplicate index (constant-expression discriminant vs implicit position)")
+    add(K + D + "pub enum NAME { A = TWO, B }\n", "accepts", "enum 2 0 - 2 0 0 - - 0", None)
+    add(K + D + "pub enum NAME { #[codec(index = 2)] A, B = TWO }\n", "accepts", "enum 2 0 2 - 0 0 - 2 0", "duplicate index (constant-expression discriminant vs index attribute)")
+    add(K + D + "pub enum NAME { #[codec(index = 3)] A, B = TWO }\n", "accepts", "enum 2 0 3 - 0 0 - 2 0", None)
+    add(K + D + "pub enum NAME { A = (1), B }\n", "accepts", "enum 2 0 - 1 0 0 - - 0", "duplicate index (parenthesised discriminant vs implicit position)")
+    add(K + D + "pub enum NAME { A = ONE + 1, B = 2 }\n", "accepts", "enum 2 0 - 2 0 0 - 2 0", "duplicate index (expression vs literal discriminant)") if False else None
+    add(K + D + "pub enum NAME { A = ONE + TWO, B = ONE, C = 0 }\n", "accepts", "enum 3 0 - 3 0 0 - 1 0 0 - 0 0", None)
+    add(K + D + "#[repr(u16)]\npub enum NAME { A = 255 + ONE as u16, B }\n", "accepts", "enum 2 0 - 256 0 0 - - 0", "index > 255") if False else None
+    # the same type parameter used plainly AND in a skipped / compact field: each role needs its own bound
+    add(D + "pub struct NAME<P> { value: P, #[codec(skip)] previous: P }\n"
+        "pub fn use_it() -> Vec<u8> { parity_scale_codec::Encode::encode(&NAME::<u8> { value: 1, previous: 2 }) }\n"
+        "pub fn use_it2() -> bool { <NAME<u8> as parity_scale_codec::Decode>::decode(&mut &[1u8][..]).is_ok() }\n",
+        "accepts", "struct 2 p u32 s u32", None)
+    add(D + "pub enum NAME<P> { Exact(P), Short(#[codec(compact)] P), #[codec(skip)] Old(P) }\n"
+        "pub fn use_it() -> Vec<u8> { parity_scale_codec::Encode::encode(&NAME::<u32>::Short(5)) }\n"
+        "pub fn use_it2() -> bool { <NAME<u32> as parity_scale_codec::Decode>::decode(&mut &[1u8, 4][..]).is_ok() }\n",
+        "accepts", "enum 3 0 - - 1 p u32 0 - - 1 c u32 1 - - 1 p u32", None)
+    add(D + "pub struct NAME<A, B> { a: A, #[codec(compact)] b: B, #[codec(skip)] c: A, d: B }\n"
+        "pub fn use_it() -> Vec<u8> { parity_scale_codec::Encode::encode(&NAME::<u8, u64> { a: 1, b: 2, c: 3, d: 4 }) }\n"
+        "pub fn use_it2() -> bool { <NAME<u8, u64> as parity_scale_codec::Decode>::decode(&mut &[1u8, 8, 4, 0, 0, 0, 0, 0, 0, 0][..]).is_ok() }\n",
+        "accepts", "struct 4 p u32 c u32 s u32 p u32", None)
     # CompactAs shape
     ca = "#[derive(parity_scale_codec::Encode, parity_scale_codec::Decode, parity_scale_codec::CompactAs)]\n"
     add(ca + "pub struct NAME(u32);\n", "acceptsca", "struct 1 p u32", None)
